@@ -246,12 +246,36 @@ fn conv_shape(out: &mut Out, r: &mut Rng, e: &Env, sh: &[usize; 7], obj: u64, ki
     }
 }
 
+/// slot vectors (what `BatchEncoder::encode_new` was given) of a plaintext set: rows `|`, polynomials `;`, slots `,`
+fn slots2d(e: &Env, p: &Plain2d) -> String {
+    if p.data.is_empty() { return "-".into(); }
+    p.data.iter().map(|row| if row.data.is_empty() { "_".to_string() } else { row.data.iter().map(|pt| fl(&e.enc.decode_new(pt))).collect::<Vec<_>>().join(";") }).collect::<Vec<_>>().join("|")
+}
+
 fn bolt_shape(out: &mut Out, r: &mut Rng, e: &Env, m: usize, rr: usize, n: usize, kind: u64, cls: &str) {
     let nn = e.s.n; let t = e.s.t;
     let x = data(r, m * rr, t, kind); let w = data(r, rr * n, t, kind);
     let want = ref_matmul(&x, &w, &[], m, rr, n, t);
     let c = format!("{}-{}", kind_name(kind), cls);
     let tag = r.next() & 0xffff;
+    // model lines (small degrees): the encode maps (slot vectors of every plaintext, in the order of the polynomial sets) and the
+    // whole slot-level schedule are compared with the Lean model of the three helpers bit for bit
+    if nn <= 32 && m * rr <= 600 && rr * n <= 600 && m * n <= 600 {
+        let head = format!("{} {} {} {} {}", nn, t, m, rr, n);
+        { let h = MatmulBoltCp::new(m, rr, n, nn);
+          out.case(&format!("bolt_cp_encx {} {}", head, fl(&x)), &format!("cpencx-{}", c), || slots2d(e, &h.encode_inputs(&e.enc, &x)));
+          out.case(&format!("bolt_cp_encw {} {}", head, fl(&w)), &format!("cpencw-{}", c), || slots2d(e, &h.encode_weights(&e.enc, &w)));
+          out.case(&format!("bolt_cp_enco {} {}", head, fl(&want)), &format!("cpenco-{}", c), || slots2d(e, &h.encode_outputs(&e.enc, &want))); }
+        { let h = MatmulBoltCcCr::new(m, rr, n, nn);
+          out.case(&format!("bolt_cccr_encx {} {}", head, fl(&x)), &format!("cccrencx-{}", c), || slots2d(e, &h.encode_inputs(&e.enc, &x)));
+          out.case(&format!("bolt_cccr_encw {} {}", head, fl(&w)), &format!("cccrencw-{}", c), || slots2d(e, &h.encode_weights(&e.enc, &w)));
+          out.case(&format!("bolt_cccr_enco {} {}", head, fl(&want)), &format!("cccrenco-{}", c), || slots2d(e, &h.encode_outputs(&e.enc, &want))); }
+        { let h = MatmulBoltCcDc::new(m, rr, n, nn);
+          out.case(&format!("bolt_ccdc_encx {} {}", head, fl(&x)), &format!("ccdcencx-{}", c), || slots2d(e, &h.encode_inputs(&e.enc, &x)));
+          out.case(&format!("bolt_ccdc_encw {} {}", head, fl(&w)), &format!("ccdcencw-{}", c), || slots2d(e, &h.encode_weights(&e.enc, &w)));
+          out.case(&format!("bolt_ccdc_enco {} {}", head, fl(&want)), &format!("ccdcenco-{}", c), || slots2d(e, &h.encode_outputs(&e.enc, &want))); }
+    }
+    let model = nn <= 32 && m * rr <= 600 && rr * n <= 600 && m * n <= 600;
     // ciphertext x plaintext
     let got = guard(|| {
         let h = MatmulBoltCp::new(m, rr, n, nn);
@@ -263,6 +287,7 @@ fn bolt_shape(out: &mut Out, r: &mut Rng, e: &Env, m: usize, rr: usize, n: usize
         assert_eq!(back, res, "encode_outputs/decode_outputs");
         fl(&res)
     });
+    if model { out.raw(&format!("bolt_cp_run {} {} {} {} {} {} {} => {} # cprun-{}", nn, t, m, rr, n, fl(&x), fl(&w), got, c)); }
     verdict(out, &format!("bolt_cp {} {} {} {} {} k{} {}", nn, t, m, rr, n, kind, tag), &format!("cp-{}", c), got, &want);
     // ciphertext x ciphertext, column-major / row-major
     let got = guard(|| {
@@ -275,6 +300,7 @@ fn bolt_shape(out: &mut Out, r: &mut Rng, e: &Env, m: usize, rr: usize, n: usize
         assert_eq!(back, res, "encode_outputs/decode_outputs");
         fl(&res)
     });
+    if model { out.raw(&format!("bolt_cccr_run {} {} {} {} {} {} {} => {} # cccrrun-{}", nn, t, m, rr, n, fl(&x), fl(&w), got, c)); }
     verdict(out, &format!("bolt_cc_cr {} {} {} {} {} k{} {}", nn, t, m, rr, n, kind, tag), &format!("cccr-{}", c), got, &want);
     // ciphertext x ciphertext, diagonal / column-major
     let got = guard(|| {
@@ -287,6 +313,7 @@ fn bolt_shape(out: &mut Out, r: &mut Rng, e: &Env, m: usize, rr: usize, n: usize
         assert_eq!(back, res, "encode_outputs/decode_outputs");
         fl(&res)
     });
+    if model { out.raw(&format!("bolt_ccdc_run {} {} {} {} {} {} {} => {} # ccdcrun-{}", nn, t, m, rr, n, fl(&x), fl(&w), got, c)); }
     verdict(out, &format!("bolt_cc_dc {} {} {} {} {} k{} {}", nn, t, m, rr, n, kind, tag), &format!("ccdc-{}", c), got, &want);
 }
 
